@@ -437,6 +437,16 @@ class SetOperation(Step):
         left.name = left.name or "left"
         right = Step.from_expression(expression.right, ctes)
         right.name = right.name or "right"
+
+        if right.name == left.name:
+            # SELECT a FROM t UNION SELECT b FROM t  <-- both sides are named after the same source,
+            # so the right one is exposed under a name of its own
+            scan = Scan()
+            scan.name = f"{right.name}_right"
+            scan.source = exp.to_table(right.name)
+            scan.add_dependency(right)
+            right = scan
+
         step = cls(
             op=expression.__class__,
             left=left.name,
